@@ -258,6 +258,16 @@ static void FN (translate_out) (FN (ent) *e, vf_rng *rng)
             bad = 1;
         }
     }
+    /* "extents describe the set": the tight bounding box of the points that stayed (C07) */
+    if (!bad && n > 0 && nc > 0) {
+        BOX_T *ex = RP (extents) (&tmp); ne++;
+        if (ex->x1 != nx + ext.x1 || ex->y1 != ny + ext.y1 || ex->x2 != nx + ext.x2 || ex->y2 != ny + ext.y2) {
+            if (FOCUS ("C07")) vf_violation (clipped ? "C07:translate-clip-extents-not-tight" : "C07:translate-extents-not-tight",
+                          "after translate by (%lld,%lld) of window (%lld,%lld): extents [%lld,%lld,%lld,%lld], the points that remain span [%lld,%lld,%lld,%lld]", (long long)dx, (long long)dy, (long long)win_x, (long long)win_y,
+                          (long long)ex->x1, (long long)ex->y1, (long long)ex->x2, (long long)ex->y2, (long long)(nx + ext.x1), (long long)(ny + ext.y1), (long long)(nx + ext.x2), (long long)(ny + ext.y2));
+            bad = 1;
+        }
+    }
     if (!bad && ((RP (not_empty) (&tmp) != 0) != (nc > 0))) {
         if (FOCUS ("C07")) vf_violation ("C07:translate-not_empty", "not_empty=%d after translate but %d points remain", RP (not_empty) (&tmp), kept);
         bad = 1;
@@ -464,8 +474,23 @@ static const char *FN (step) (FN (ent) *pool, vf_rng *rng)
     case 9: {
         static BOX_T boxes[64]; int n = (int)vf_range (rng, 0, 14); if (vf_chance (rng, 1, 10)) n = (int)vf_range (rng, 15, 60);
         memset (&res, 0, sizeof res);
-        int style = (int)(vf_next (rng) % 4);
-        for (int i = 0; i < n; i++) {
+        int style = (int)(vf_next (rng) % 5);
+        if (style == 4) {
+            /* "comb": bands of many narrow teeth (up to WIN/2 boxes per band, more than 32 boxes in all) under / between full bars, so that
+             * per-band searches (contains_point, contains_rectangle, the band sweeps of the set operations) walk long bands */
+            n = 0; int y = (int)vf_range (rng, 0, 6);
+            while (y < WIN && n < 62) {
+                int h = (int)vf_range (rng, 1, 5); if (y + h > WIN) h = WIN - y;
+                if (vf_chance (rng, 1, 3)) { rc.x1 = (int)vf_range (rng, 0, 10); rc.x2 = (int)vf_range (rng, rc.x1 + 1, WIN); rc.y1 = y; rc.y2 = y + h;
+                    FN (box_from) (&boxes[n++], &rc); bm_t t; bm_rect (&t, &rc); bm_union (&res, &res, &t); }
+                else { int per = (int)vf_range (rng, 2, 3), tw = (int)vf_range (rng, 1, per - 1), x = (int)vf_range (rng, 0, 12);
+                    for (; x + tw <= WIN && n < 62; x += per) { rc.x1 = x; rc.x2 = x + tw; rc.y1 = y; rc.y2 = y + h;
+                        FN (box_from) (&boxes[n++], &rc); bm_t t; bm_rect (&t, &rc); bm_union (&res, &res, &t); } }
+                y += h + (vf_chance (rng, 1, 2) ? 0 : (int)vf_range (rng, 1, 3));
+            }
+            if (vf_chance (rng, 1, 2)) for (int i = n - 1; i > 0; i--) { int j = (int)vf_range (rng, 0, i); BOX_T t = boxes[i]; boxes[i] = boxes[j]; boxes[j] = t; }   /* any order */
+        }
+        else for (int i = 0; i < n; i++) {
             FN (gen_rect) (rng, &rc, 1);
             if (style == 1) { rc.y1 = (i * 5) % WIN; rc.y2 = rc.y1 + 3 > WIN ? WIN : rc.y1 + 3; }       /* sorted bands */
             if (style == 2 && i > 0 && vf_chance (rng, 1, 2)) { rc.y1 = (int)(boxes[i - 1].y1 - win_y); rc.y2 = (int)(boxes[i - 1].y2 - win_y); } /* same band, x overlaps */
